@@ -597,10 +597,22 @@ func randomRLP(rng *rand.Rand, depth int) []byte {
 	return b
 }
 
-// the message loop still serves: a 1-hash request is answered (or the session was closed with an error, not a panic)
+// the message loop still serves: a probe request is answered (or the session was closed with an error, not a panic).
+// The junk sent before the probe may itself have decoded as a request (random RLP does, now and then) and been answered;
+// replies arrive in order, so every hashes message before the probe's own reply is consumed here and the next request
+// cannot be paired with a stale reply (seen once in 105 000 thorough cases: `handle` mismatch with the reply of a probe).
+// The probe asks for three hashes from a random height, a reply the junk cannot produce by accident.
 func (s *session) probe() bool {
 	out := s.out
-	if !s.send(protocol.GetBlockHashesFromNumberMsg, &getBlockHashesFromNumberData{1, 1}) {
+	k := uint64(1)
+	if s.H > 4 {
+		k = 1 + uint64(s.rng.Int63n(int64(s.H-3)))
+	}
+	n := uint64(3)
+	if k+n-1 > s.H {
+		n = s.H - k + 1
+	}
+	if !s.send(protocol.GetBlockHashesFromNumberMsg, &getBlockHashesFromNumberData{k, n}) {
 		if s.ended == nil {
 			_, _ = s.await(^uint64(0), 2*time.Second)
 		}
@@ -609,17 +621,32 @@ func (s *session) probe() bool {
 		}
 		return false
 	}
-	m, end := s.await(protocol.BlockHashesMsg, 20*time.Second)
-	if end != nil {
-		out.Oracle(end.panicked == nil, "handler-no-panic", Tup("before-probe", fmt.Sprint(end.panicked)))
-		out.Count("fuzz:session-closed-with-error")
-		return false
+	for tries := 0; tries < 4; tries++ {
+		m, end := s.await(protocol.BlockHashesMsg, 20*time.Second)
+		if end != nil {
+			out.Oracle(end.panicked == nil, "handler-no-panic", Tup("before-probe", fmt.Sprint(end.panicked)))
+			out.Count("fuzz:session-closed-with-error")
+			return false
+		}
+		if m == nil {
+			break
+		}
+		var hashes []types.Hash
+		if err := rlp.DecodeBytes(m.payload, &hashes); err == nil && uint64(len(hashes)) == n {
+			own := true
+			for i, h := range hashes {
+				own = own && h == s.hashAt[k+uint64(i)]
+			}
+			if own {
+				out.Oracle(true, "message-loop-not-blocked", nil)
+				out.Count("fuzz:session-continues")
+				return true
+			}
+		}
+		out.Count("fuzz:junk-decoded-as-a-request-and-was-answered")
 	}
-	out.Oracle(m != nil, "message-loop-not-blocked", nil)
-	if m != nil {
-		out.Count("fuzz:session-continues")
-	}
-	return m != nil
+	out.Oracle(false, "message-loop-not-blocked", nil)
+	return false
 }
 
 func junkMomentum(rng *rand.Rand, s *session) *nom.DetailedMomentum {
